@@ -252,3 +252,127 @@ Definition thermal_flip_eqb (cn hf w : vec) (fails : list nat) (o : res robj) (i
       vapproxb (pmol (snd r)) mol' && qapproxb (pT (snd r)) T' && Nat.eqb (pph (snd r)) ph' &&
       qapprox_scaled scale (HnetP H hf (snd r)) hnet'
   end.
+
+(* ====================================================================================== *)
+(* Stream._get_property: the memo behind Stream.H.  A stream and all its proxies share ONE cache
+   dictionary and ONE key list (Stream.proxy copies the references; the key list is updated in
+   place), as they share the flows and the thermal condition.  In the model there is therefore one
+   state and one cache whatever handle is used.  The key is (phase, T, composition) [P is constant
+   here]; the cached value is per unit of total flow.  Reading any other cached property (Cn, S, ...)
+   moves the key too and empties the dictionary when the key changed. *)
+Record hcache := mkC { ckey : option (nat * Q * vec); cH : option Q }.
+Definition cache0 : hcache := mkC None None.
+
+Definition key_eqb (a b : nat * Q * vec) : bool :=
+  let '(p1, t1, z1) := a in let '(p2, t2, z2) := b in
+  Nat.eqb p1 p2 && Qeq_bool t1 t2 && veqb z1 z2.
+
+Definition cur_key (s : pstream) : nat * Q * vec :=
+  (pph s, pT s, vdivs (pmol s) (qsum (pmol s))).
+
+Definition key_hit (c : hcache) (s : pstream) : bool :=
+  match ckey c with Some k => key_eqb k (cur_key s) | None => false end.
+
+Section Cache.
+  Variable hspec : nat -> vec -> Q -> Q.     (* mixture.H(phase, composition, T, P) *)
+
+  (* Stream.H *)
+  Definition get_H (c : hcache) (s : pstream) : Q * hcache :=
+    let total := qsum (pmol s) in
+    if qzerob total then (0, c)
+    else
+      let '(ph, T, z) := cur_key s in
+      if key_hit c s then
+        match cH c with
+        | Some v => (v * total, c)
+        | None => let v := hspec ph z T in (v * total, mkC (Some (ph, T, z)) (Some v))
+        end
+      else let v := hspec ph z T in (v * total, mkC (Some (ph, T, z)) (Some v)).
+
+  (* any other property served by _get_property *)
+  Definition read_other (c : hcache) (s : pstream) : hcache :=
+    if qzerob (qsum (pmol s)) then c
+    else if key_hit c s then c else mkC (Some (cur_key s)) None.
+
+  Inductive sop :=
+  | SReadH | SReadOther | SSetT (t : Q) | SSetFlows (m : vec) | SSetPhase (ph : nat).
+
+  Definition sstep (st : pstream * hcache) (o : sop) : (pstream * hcache) * list Q :=
+    let (s, c) := st in
+    match o with
+    | SReadH => let (v, c') := get_H c s in ((s, c'), [v])
+    | SReadOther => ((s, read_other c s), [])
+    | SSetT t => ((mkP (pmol s) t (pph s), c), [])
+    | SSetFlows m => ((mkP m (pT s) (pph s), c), [])
+    | SSetPhase ph => ((mkP (pmol s) (pT s) ph, c), [])
+    end.
+
+  Fixpoint srun (st : pstream * hcache) (ops : list sop) : (pstream * hcache) * list Q :=
+    match ops with
+    | [] => (st, [])
+    | o :: t => let (st1, r1) := sstep st o in let (st2, r2) := srun st1 t in (st2, r1 ++ r2)
+    end.
+
+  (* the enthalpy the mixture model assigns to the state *)
+  Definition HfunC (ph : nat) (mol : vec) (T : Q) : Q :=
+    qsum mol * hspec ph (vdivs mol (qsum mol)) T.
+
+  Variable solveP : nat -> vec -> Q -> res Q.
+  Variable hf : vec.
+
+  (* adiabatic_reaction through any handle: Hnet is read through the memo; [callf] is the reaction step
+     (V.C05.Model.call_stream, or call_other for a stream of another package) *)
+  Definition adiabatic_cached (is_stream : bool) (callf : vec -> option err * vec)
+             (st : pstream * hcache) (Qin : Q) : option err * (pstream * hcache) :=
+    let (s, c) := st in
+    if negb is_stream then (Some EValue, st)
+    else
+      let (h0, c1) := get_H c s in
+      let hnet := h0 + Hf_of hf (pmol s) + Qin in
+      let (e, mol') := callf (pmol s) in
+      let s1 := mkP mol' (pT s) (pph s) in
+      match e with
+      | Some e => (Some e, (s1, c1))
+      | None => let (e2, s2) := setH_flip solveP s1 (hnet - Hf_of hf mol') in (e2, (s2, c1))
+      end.
+
+  Definition isothermal_cached (callf : vec -> option err * vec) (st : pstream * hcache)
+    : option err * (pstream * hcache) :=
+    let (s, c) := st in let (e, mol') := callf (pmol s) in (e, (mkP mol' (pT s) (pph s), c)).
+End Cache.
+
+(* stub: constant heat capacities *)
+Definition stub_hspec (cn : vec) (ph : nat) (z : vec) (T : Q) : Q := vdot cn z * (T - Tref).
+
+Definition thermal_cached_eqb (cn hf : vec) (fails : list nat) (o : res robj) (callf : robj -> vec -> option err * vec)
+           (adiab is_stream : bool) (s : pstream) (pre : list sop) (reads : vec) (Qin : Q)
+           (e : option err) (mol' : vec) (T' : Q) (ph' : nat) (hnet0 hnet' : Q) : bool :=
+  match o with
+  | Err _ => false
+  | Ok ob =>
+      let hs := stub_hspec cn in
+      let '(st1, rd) := srun hs (s, cache0) pre in
+      let r := if adiab then adiabatic_cached hs (stubSolveP cn fails) hf is_stream (callf ob) st1 Qin
+               else isothermal_cached (callf ob) st1 in
+      let HN := fun p : pstream => HfunC hs (pph p) (pmol p) (pT p) + Hf_of hf (pmol p) in
+      let scale := Qabs hnet0 + Qabs Qin in
+      vapproxb rd reads && oerr_eqb (fst r) e &&
+      qapprox_scaled scale (HN (fst st1)) hnet0 &&
+      vapproxb (pmol (fst (snd r))) mol' && qapproxb (pT (fst (snd r))) T' && Nat.eqb (pph (fst (snd r))) ph' &&
+      qapprox_scaled scale (HN (fst (snd r))) hnet'
+  end.
+
+(* ---------- heats of reaction after a history on copies (V.C05.Model.hist_run) ---------- *)
+Definition dH_list_eqb (c : chemdata) (l : list rxn) (expect : list (option err * Q)) : bool :=
+  Nat.eqb (length l) (length expect) &&
+  forallb (fun b : bool => b)
+    (map2 (fun (r : rxn) (x : option err * Q) => resq_eqb (dH c r) (fst x) (snd x)) l expect).
+
+Definition dHs_hist_eqb (c : chemdata) (mws : vec) (o : res robj) (ops : list hop) (oks : list bool)
+           (members derived : list (option err * Q)) : bool :=
+  match o with
+  | Err _ => false
+  | Ok ob =>
+      let '(ob', oks', der') := hist_run mws ob ops in
+      list_eqb Bool.eqb oks' oks && dH_list_eqb c (flat_members ob') members && dH_list_eqb c der' derived
+  end.
